@@ -655,6 +655,70 @@ func c11LLRun(c *vh.Ctx, cs c11LL) (sig, msg, outcome string) {
 	return "", "", outcome
 }
 
+// c11Huge: a playlist of well over a megabyte (a DVR window, long signed URIs): the client starts from the third segment from
+// the end of the whole list (live) or from its first segment (PLAYLIST-TYPE:VOD with ENDLIST); segments answer 404, so the first segment request
+// is the last one.
+type c11Huge struct {
+	Entries int  `json:"huge_entries"`
+	Pad     int  `json:"pad"` // characters of query appended to every URI
+	Live    bool `json:"live"`
+}
+
+func c11HugeRun(c *vh.Ctx, cs c11Huge) (sig, msg, outcome string) {
+	var b strings.Builder
+	b.WriteString("#EXTM3U\n#EXT-X-VERSION:3\n#EXT-X-TARGETDURATION:2\n#EXT-X-MEDIA-SEQUENCE:1000\n")
+	if !cs.Live {
+		b.WriteString("#EXT-X-PLAYLIST-TYPE:VOD\n")
+	}
+	pad := ""
+	if cs.Pad > 0 {
+		pad = "?sig=" + strings.Repeat("a", cs.Pad)
+	}
+	name := func(i int) string { return fmt.Sprintf("seg_%07d.ts%s", 1000+i, pad) }
+	for i := 0; i < cs.Entries; i++ {
+		b.WriteString("#EXTINF:2.00000,\n" + name(i) + "\n")
+	}
+	if !cs.Live {
+		b.WriteString("#EXT-X-ENDLIST\n")
+	}
+	text := b.String()
+	srv := &stubServer{}
+	srv.handler = func(n int, path, rawQuery string, req *http.Request) srvResp {
+		if strings.HasSuffix(path, "big.m3u8") {
+			return srvResp{Status: 200, Body: []byte(text)}
+		}
+		return srvResp{Status: 404}
+	}
+	base := "http://big.example/live/"
+	obs := runClientPlain(c.T, base+"big.m3u8", srv, cliOpts{})
+	first := cs.Entries - 3
+	if !cs.Live {
+		first = 0
+	}
+	want := []string{base + "big.m3u8", base + name(first)}
+	var got []string
+	for _, r := range obs.Reqs {
+		got = append(got, r.URL)
+	}
+	outcome = fmt.Sprintf("huge entries=%d bytes=%d live=%v reqs=%d end=%s", cs.Entries, len(text), cs.Live, len(got), c11Class(obs.WaitErr))
+	where := fmt.Sprintf("\ncase: %+v (playlist of %d bytes)\n got  %s\n want %s", cs, len(text), strings.Join(got, "\n      "), strings.Join(want, "\n      "))
+	if len(obs.Panics) > 0 {
+		return "client-panic", obs.Panics[0] + where, outcome
+	}
+	if len(got) != len(want) {
+		return "huge-request-count", fmt.Sprintf("the client issued %d requests, the model expects %d", len(got), len(want)) + where, outcome
+	}
+	for i := range got {
+		if got[i] != want[i] {
+			return "huge-wrong-request", fmt.Sprintf("request %d is %q, the model expects %q", i, got[i], want[i]) + where, outcome
+		}
+	}
+	if c11Class(obs.WaitErr) != "http" {
+		return "huge-wrong-end", fmt.Sprintf("the client ended with %v, want the 404 of the segment", obs.WaitErr) + where, outcome
+	}
+	return "", "", outcome
+}
+
 func c11LLCases() []c11LL {
 	var out []c11LL
 	for rounds := 1; rounds <= 4; rounds++ {
@@ -674,6 +738,7 @@ func c11LLCases() []c11LL {
 func c11List(tier string) []vh.Scenario {
 	var out []vh.Scenario
 	out = append(out, vh.Scenario{Name: "low-latency preload hints", Weight: 200})
+	out = append(out, vh.Scenario{Name: "very large playlists", Weight: 100})
 	for _, g := range c11Groups(tier) {
 		w := 1000
 		if g.Multi {
@@ -691,6 +756,28 @@ func c11Run(c *vh.Ctx) {
 		c.Exec()
 		if sig, msg, _ := c11LLRun(c, cs); sig != "" {
 			c.Violation("C11/"+sig, msg, cs)
+		}
+		return
+	}
+	if c.Replay != nil && strings.Contains(string(c.Replay), `"huge_entries"`) {
+		var cs c11Huge
+		json.Unmarshal(c.Replay, &cs)
+		c.Exec()
+		if sig, msg, _ := c11HugeRun(c, cs); sig != "" {
+			c.Violation("C11/"+sig, msg, cs)
+		}
+		return
+	}
+	if c.Replay == nil && c.Scenario == "very large playlists" {
+		for _, cs := range []c11Huge{{Entries: 12000, Pad: 90, Live: true}, {Entries: 12000, Pad: 90, Live: false}, {Entries: 70000, Pad: 0, Live: true}, {Entries: 9000, Pad: 300, Live: true}} {
+			sig, msg, outcome := c11HugeRun(c, cs)
+			c.Exec()
+			c.AddStates(1)
+			c.Outcome(outcome)
+			c.Sample(map[string]any{"case": cs, "outcome": outcome})
+			if sig != "" {
+				c.Violation("C11/"+sig, msg, cs)
+			}
 		}
 		return
 	}
